@@ -217,6 +217,13 @@ example : Ranked selfSlice (fun n => if n = 1 then 1 else 0) 1 := by
     | 1, hg => simp [selfSlice] at hg; subst hg; simp at hc; subst hc; simp
     | n + 2, hg => simp [selfSlice] at hg
 
+/-- D5 in the model, at max = 2: three nested slices are written when the innermost one is empty (the
+`[]` shortcut skips the depth test), and refused when it holds a scalar.  (Illustrations, not theorems.) -/
+example : marshal [⟨.slice, [1]⟩, ⟨.slice, [2]⟩, ⟨.slice, []⟩] 2 1000 10 1 [] 0 = .ok := by decide
+example : marshal [⟨.slice, [1]⟩, ⟨.slice, [2]⟩, ⟨.slice, [3]⟩, ⟨.scalar, []⟩] 2 1000 10 1 [] 0 = .maxDepth := by decide
+/-- …whereas the value path refuses the text `[[[]]]` at max = 2 (`nestEmpty_iff`). -/
+example : nestDepthOk 2 1 (nestEmpty [false, false] false) = false := by decide
+
 /-- The full statement: the traversal ends on every finite heap graph. -/
 def cycle_bounded_full (max after : Nat) : Prop :=
   ∀ (g : Heap) (n : Nat), ∃ fuel, marshal g max after fuel 1 [] n ≠ .outOfFuel
